@@ -447,7 +447,35 @@ class C01(Prop):
         return core.Violation("run %s: %s%s" % (rname, what, (" [%s]" % name) if name else ""), body,
                               "" if name else "no-failing-input-found")
 
-    def _judge(self, ctx, st, pred):
+    def _confirm_alone(self, ctx, st, names, attempts=3):
+        """A permutation that failed while a dozen runner processes shared the machine is run again ALONE (same
+        config, mode, peer), `attempts` times, one after the other, after every other run has ended.  Several
+        embedded suites are timing assertions (Deadline Propagation: the echoed timeout must lie within 500 ms of
+        the one sent; Timeouts; cancellation), which a starved scheduler can fail on a correct tree.  Returns the
+        names that passed in every isolated attempt; a name that fails in any of them stays a failure."""
+        cmd = st["cmd"]
+        base = cmd[:cmd.index("--")]
+        for flag in ("--run", "--skip"):
+            while flag in base:
+                i = base.index(flag)
+                del base[i:i + 2]
+        pf = os.path.join(ctx.work, "confirm.%s.patterns" % st["run"][0])
+        with open(pf, "w") as f:
+            f.write("\n".join(names) + "\n")
+        still = set()
+        for k in range(attempts):
+            rc, log, _ = core.run_cmd(base + ["--run", "@" + pf] + cmd[cmd.index("--"):], cwd=core.REPO, timeout=600, check=False)
+            bad = set()
+            for line in log.split("\n"):
+                m = FAILED_RE.match(line)
+                if m:
+                    bad.add(m.group(1))
+            if rc != 0 and not bad:
+                bad = set(names)          # the isolated run itself went wrong: nothing is recovered
+            still |= bad
+        return [n for n in names if n not in still]
+
+    def _judge(self, ctx, st, pred, recovered=()):
         """compare one finished run with the oracle's prediction (names list, marked list)"""
         run, cmd = st["run"], st["cmd"]
         rname = run[0]
@@ -488,6 +516,16 @@ class C01(Prop):
             if m:
                 expected = int(m.group(1))
         names, marked = pred
+        st["failed_names"] = list(failed)
+        if recovered:
+            rec = [n for n in failed if n in set(recovered)]
+            failed = [n for n in failed if n not in set(recovered)]
+            if nfailed is not None and passed is not None:
+                nfailed -= len(rec)
+                passed += len(rec)
+            if not failed and st["rc"] == 1:
+                st = dict(st, rc=0)
+            ctx.notes.setdefault("passed_when_rerun_alone", []).extend(rec)
         want = collections.Counter(names)
         note = {"exit": st["rc"], "wall_s": round(st["dt"], 1), "predicted": len(names), "sent": sum(sent.values()),
                 "answered": sum(recv.values()), "total": total, "passed": passed, "failed": nfailed,
@@ -703,7 +741,14 @@ class C01(Prop):
             for st, pred in zip(started, preds):
                 if pred is None:
                     continue
-                vs.extend(self._judge(ctx, st, pred))
+                v1 = self._judge(ctx, st, pred)
+                fn = st.get("failed_names", [])
+                if fn and len(fn) <= 40 and not vs:
+                    # every run has ended by now (reaper joined): the machine is quiet
+                    rec = self._confirm_alone(ctx, st, fn)
+                    if rec:
+                        v1 = self._judge(ctx, st, pred, recovered=rec)
+                vs.extend(v1)
         finally:
             for st in started:
                 if st["proc"].poll() is None:
